@@ -64,6 +64,22 @@ Ltac crush :=
   | H : context [?a <? ?b] |- _ => destruct (Nat.ltb_spec a b)
   end; try lia.
 
+(* release of an arbitrary (possibly nested) storage *)
+Lemma release_nxt s : forall L, nxt (release s L) = nxt L.
+Proof. induction s; intro L; cbn [release destroy nxt]; auto. Qed.
+Lemma release_dt s : forall L x,
+  count_occ Nat.eq_dec (flat_map ev_dtor (elog (release s L))) x =
+  count_occ Nat.eq_dec (sid s) x + count_occ Nat.eq_dec (flat_map ev_dtor (elog L)) x.
+Proof.
+  induction s; intros L x; cbn [release destroy elog sid flat_map ev_dtor app count_occ]; auto.
+  - destruct (Nat.eq_dec (oid o) x); lia.
+  - destruct (Nat.eq_dec (oid o) x); lia.
+Qed.
+Lemma release_ct s : forall L x,
+  count_occ Nat.eq_dec (flat_map ev_ctor (elog (release s L))) x =
+  count_occ Nat.eq_dec (flat_map ev_ctor (elog L)) x.
+Proof. induction s; intros L x; cbn [release destroy elog flat_map ev_ctor app]; auto. Qed.
+
 Ltac red_led :=
   cbn [cnt count_occ flat_map ev_dtor ev_ctor app sid nxt elog oid ov fst snd
        release destroy fresh_obj copy_obj move_obj mk is_empty with_obj] in *.
@@ -77,7 +93,9 @@ Definition local2 (f : storage -> storage -> ledger -> outcome * storage * stora
     match f a b L with (_, a', b', L') => linv (sid a' ++ sid b' ++ held) L' end.
 
 Ltac finish H1 H2 :=
-  red_led; split; (let x := fresh "x" in intro x; specialize (H1 x); specialize (H2 x); red_led; crush).
+  red_led; split; (let x := fresh "x" in intro x; specialize (H1 x); specialize (H2 x); red_led;
+    unfold cnt in *;
+    rewrite ?release_nxt, ?release_dt, ?release_ct, ?count_occ_app in *; red_led; crush).
 
 Ltac ifs :=
   repeat match goal with
@@ -92,91 +110,155 @@ Ltac ifs :=
 Lemma w_store_local sbo v mv ctor : local1 (w_store sbo v mv ctor).
 Proof.
   unfold local1, w_store, s_store, linv, linvr. intros s L held [H1 H2].
-  destruct s as [|o|o], mv, ctor; red_led; ifs; finish H1 H2.
+  destruct s as [|o|o|n], mv, ctor; red_led; ifs; finish H1 H2.
 Qed.
 
 Lemma w_move_local : local2 w_move.
 Proof.
   unfold local2, w_move, s_move_assign, linv, linvr. intros a b L held [H1 H2].
-  destruct a as [|o|o], b as [|p|p]; red_led; finish H1 H2.
+  destruct a as [|o|o|n], b as [|p|p|m]; red_led; finish H1 H2.
 Qed.
 
 Lemma w_move_from_any_local : local2 w_move_from_any.
 Proof.
   unfold local2, w_move_from_any, s_move_assign, linv, linvr. intros a b L held [H1 H2].
-  destruct a as [|o|o], b as [|p|p]; red_led; finish H1 H2.
+  destruct a as [|o|o|n], b as [|p|p|m]; red_led; finish H1 H2.
 Qed.
 
 Lemma w_copy_local : local2 w_copy.
 Proof.
-  unfold local2, w_copy, s_copy_assign, linv, linvr. intros a b L held [H1 H2].
-  destruct a as [|o|o], b as [|p|p]; red_led; finish H1 H2.
+  unfold local2, w_copy, s_copy_assign, s_copy1, linv, linvr. intros a b L held [H1 H2].
+  destruct a as [|o|o|n], b as [|p|p|[|q|q|m]]; red_led; finish H1 H2.
+Qed.
+
+Lemma w_nest_local : local2 w_nest.
+Proof.
+  unfold local2, w_nest, s_copy_assign, s_copy1, linv, linvr. intros a b L held [H1 H2].
+  destruct a as [|o|o|n], b as [|p|p|[|q|q|m]]; red_led; finish H1 H2.
 Qed.
 
 Lemma w_reset_local : local1 w_reset.
 Proof.
   unfold local1, w_reset, linv, linvr. intros s L held [H1 H2].
-  destruct s as [|o|o]; red_led; finish H1 H2.
+  destruct s as [|o|o|n]; red_led; finish H1 H2.
 Qed.
 
 Lemma w_connect_rv_local sbo : local1 (w_connect_rv sbo).
 Proof.
-  unfold local1, w_connect_rv, s_move_assign, linv, linvr. intros s L held [H1 H2].
-  destruct s as [|o|o]; red_led; ifs; finish H1 H2.
+  unfold local1, w_connect_rv, w_connect_rv1, s_move_assign, linv, linvr. intros s L held [H1 H2].
+  destruct s as [|o|o|[|p|p|m]]; red_led; ifs; finish H1 H2.
 Qed.
 
 Lemma w_connect_lv_local sbo : local1 (w_connect_lv sbo).
 Proof.
-  unfold local1, w_connect_lv, linv, linvr. intros s L held [H1 H2].
-  destruct s as [|o|o]; red_led; ifs; finish H1 H2.
+  unfold local1, w_connect_lv, w_connect_lv1, linv, linvr. intros s L held [H1 H2].
+  destruct s as [|o|o|[|p|p|m]]; red_led; ifs; finish H1 H2.
 Qed.
 
 Lemma f_store_local v mv ctor : local1 (f_store v mv ctor).
 Proof.
   unfold local1, f_store, f_assign, fn_place, linv, linvr. intros s L held [H1 H2].
-  destruct s as [|o|o], mv, ctor; red_led; ifs; finish H1 H2.
+  destruct s as [|o|o|n], mv, ctor; red_led; ifs; finish H1 H2.
+Qed.
+
+Lemma f_store_fn_local v ie mvi mv : local1 (f_store_fn v ie mvi mv).
+Proof.
+  unfold local1, f_store_fn, fn_place, linv, linvr. intros s L held [H1 H2].
+  destruct s as [|o|o|n], ie, mvi, mv; red_led; ifs; finish H1 H2.
 Qed.
 
 Lemma f_copy_ctor_local : local2 f_copy_ctor.
 Proof.
-  unfold local2, f_copy_ctor, fn_place, linv, linvr. intros a b L held [H1 H2].
-  destruct a as [|o|o], b as [|p|p]; red_led; ifs; finish H1 H2.
+  unfold local2, f_copy_ctor, f_clone, f_clone1, fn_place, linv, linvr. intros a b L held [H1 H2].
+  destruct a as [|o|o|n], b as [|p|p|[|q|q|m]]; red_led; ifs; finish H1 H2.
 Qed.
 
 Lemma f_move_ctor_local : local2 f_move_ctor.
 Proof.
   unfold local2, f_move_ctor, linv, linvr. intros a b L held [H1 H2].
-  destruct a as [|o|o], b as [|p|p]; red_led; finish H1 H2.
+  destruct a as [|o|o|n], b as [|p|p|m]; red_led; finish H1 H2.
 Qed.
 
 Lemma f_copy_assign_local : local2 f_copy_assign.
 Proof.
-  unfold local2, f_copy_assign, vptr_eq, fn_place, linv, linvr. intros a b L held [H1 H2].
-  destruct a as [|o|o], b as [|p|p]; red_led; ifs; finish H1 H2.
+  unfold local2, f_copy_assign, vptr_eq, f_clone, f_clone1, fn_place, linv, linvr. intros a b L held [H1 H2].
+  destruct a as [|o|o|n], b as [|p|p|[|q|q|m]]; red_led; ifs; finish H1 H2.
 Qed.
 
 Lemma f_move_assign_local : local2 f_move_assign.
 Proof.
   unfold local2, f_move_assign, linv, linvr. intros a b L held [H1 H2].
-  destruct a as [|o|o], b as [|p|p]; red_led; finish H1 H2.
+  destruct a as [|o|o|n], b as [|p|p|m]; red_led; finish H1 H2.
 Qed.
 
 Lemma f_swap_local : local2 f_swap.
 Proof.
   unfold local2, f_swap, linv, linvr. intros a b L held [H1 H2].
-  destruct a as [|o|o], b as [|p|p]; red_led; finish H1 H2.
+  destruct a as [|o|o|n], b as [|p|p|m]; red_led; finish H1 H2.
 Qed.
 
 Lemma f_reset_local : local1 f_reset.
 Proof.
   unfold local1, f_reset, linv, linvr. intros s L held [H1 H2].
-  destruct s as [|o|o]; red_led; finish H1 H2.
+  destruct s as [|o|o|n]; red_led; finish H1 H2.
 Qed.
 
 Lemma f_invoke_local arg : local1 (f_invoke arg).
 Proof.
-  unfold local1, f_invoke, linv, linvr. intros s L held [H1 H2].
-  destruct s as [|o|o]; red_led; try destruct (call (ov o) arg); finish H1 H2.
+  unfold local1, f_invoke, f_invoke1, linv, linvr. intros s L held [H1 H2].
+  destruct s as [|o|o|[|p|p|m]]; red_led;
+    try destruct (call (ov o) arg); try destruct (call (ov p) arg); finish H1 H2.
+Qed.
+
+(* ---- throwing constructors: the sender wrappers and the constructing function operations *)
+Lemma w_store_throw_local v ctor : local1 (w_store_throw v ctor).
+Proof.
+  unfold local1, w_store_throw, linv, linvr. intros s L held [H1 H2].
+  destruct s as [|o|o|n]; red_led; finish H1 H2.
+Qed.
+Lemma w_copy_throw_local : local2 w_copy_throw.
+Proof.
+  unfold local2, w_copy_throw. intros a b L held H. destruct b as [|p|p|m];
+    [apply (w_copy_local a Empty L held H)| | |];
+    unfold linv, linvr in *; destruct H as [H1 H2]; destruct a as [|o|o|n]; red_led; finish H1 H2.
+Qed.
+Lemma w_nest_throw_local : local2 w_nest_throw.
+Proof.
+  unfold local2, w_nest_throw. intros a b L held H. destruct b as [|p|p|m];
+    [apply (w_nest_local a Empty L held H)| | |];
+    unfold linv, linvr in *; destruct H as [H1 H2]; destruct a as [|o|o|n]; red_led; finish H1 H2.
+Qed.
+Lemma w_move_throw_local : local2 w_move_throw.
+Proof.
+  unfold local2, w_move_throw. intros a b L held H. destruct b as [|p|p|m];
+    [apply (w_move_local a Empty L held H)|apply (w_move_local a (Heap p) L held H)|
+     |apply (w_move_local a (Nested m) L held H)].
+  unfold linv, linvr in *; destruct H as [H1 H2]; destruct a as [|o|o|n]; red_led; finish H1 H2.
+Qed.
+Lemma w_move_from_any_throw_local : local2 w_move_from_any_throw.
+Proof.
+  unfold local2, w_move_from_any_throw. intros a b L held H. destruct b as [|p|p|m];
+    [apply (w_move_from_any_local a Empty L held H)|apply (w_move_from_any_local a (Heap p) L held H)|
+     |apply (w_move_from_any_local a (Nested m) L held H)].
+  unfold linv, linvr in *; destruct H as [H1 H2]; destruct a as [|o|o|n]; red_led; finish H1 H2.
+Qed.
+Lemma w_connect_rv_throw_local sbo : local1 (w_connect_rv_throw sbo).
+Proof.
+  unfold local1, w_connect_rv_throw. intros s L held H.
+  destruct s as [|o|o|[|p|p|m]];
+    try exact (w_connect_rv_local sbo _ L held H);
+    unfold linv, linvr in *; destruct H as [H1 H2]; red_led; finish H1 H2.
+Qed.
+Lemma f_store_throw_ctor_local v : local1 (f_store_throw v true).
+Proof.
+  unfold local1, f_store_throw, linv, linvr. intros s L held [H1 H2].
+  destruct s as [|o|o|n]; red_led; finish H1 H2.
+Qed.
+Lemma f_copy_ctor_throw_local : local2 f_copy_ctor_throw.
+Proof.
+  unfold local2, f_copy_ctor_throw. intros a b L held H. destruct b as [|p|p|m];
+    [apply (f_copy_ctor_local a Empty L held H)| | |];
+    unfold linv, linvr in *; destruct H as [H1 H2]; destruct a as [|o|o|n]; red_led; finish H1 H2.
 Qed.
 
 (* ------------------------------------------------------------------ histories *)
@@ -236,14 +318,14 @@ Lemma sstep_ginv sbo op st : ginv st -> ginv (snd (sstep sbo op st)).
 Proof.
   destruct op; cbn [sstep]; first [apply op1_ginv | apply op2_ginv];
     auto using w_store_local, w_move_local, w_move_from_any_local, w_copy_local, w_reset_local,
-      w_connect_rv_local, w_connect_lv_local.
+      w_connect_rv_local, w_connect_lv_local, w_nest_local.
 Qed.
 
 Lemma fstep_ginv op st : ginv st -> ginv (snd (fstep op st)).
 Proof.
   destruct op; cbn [fstep]; first [apply op1_ginv | apply op2_ginv];
     auto using f_store_local, f_copy_ctor_local, f_move_ctor_local, f_copy_assign_local,
-      f_move_assign_local, f_swap_local, f_reset_local, f_invoke_local.
+      f_move_assign_local, f_swap_local, f_reset_local, f_invoke_local, f_store_fn_local.
 Qed.
 
 Lemma run_ginv {Op} (step : Op -> state -> outcome * state) :
@@ -257,8 +339,8 @@ Proof.
   induction l as [|s t IH]; intros L held Hi; cbn [fold_left]; [exact Hi|].
   apply IH. unfold ids in *. cbn [flat_map] in Hi. destruct Hi as [H1 H2].
   unfold linv, linvr.
-  destruct s as [|o|o]; red_led; split; intro x; specialize (H1 x); specialize (H2 x);
-    rewrite ?cnt_app in *; red_led; crush.
+  destruct s as [|o|o|n]; red_led; split; intro x; specialize (H1 x); specialize (H2 x);
+    unfold cnt in *; rewrite ?release_nxt, ?release_dt, ?release_ct, ?count_occ_app in *; red_led; crush.
 Qed.
 
 Lemma destroy_all_linv st : ginv st -> linv [] (led (destroy_all st)).
